@@ -155,17 +155,17 @@ def run(ctx):
     for k in sorted(fams):
         if k.startswith("reuse_"):               # name-reuse programs: typing of a name depends on finding the right binder
             progs["fam_" + k] = fams[k]
-    for k in range(20 if ctx.tier == "quick" else 250):
+    for k in range(20 if ctx.tier == "quick" else 150):
         progs["gen_%d_%d" % (ctx.seed, k)] = Gen(ctx.seed * 4000037 + k).program()
     for k in range(8 if ctx.tier == "quick" else 80):
         progs["genmap_%d_%d" % (ctx.seed, k)] = Gen(ctx.seed * 4000037 + 500000 + k, features={"maps": True, "fnvals": k % 2 == 1}).program()
     # the C05 mutants: those the real checker accepts although NanoType rejects them are C04 subjects as well
-    _, allm = c05.build_mutants(ctx, 2 if ctx.tier == "quick" else 6)
+    _, allm = c05.build_mutants(ctx, 2 if ctx.tier == "quick" else 4)
     for mid, m in allm.items():
         progs["mut_" + mid] = m["prog"]
     what = {("mut_" + mid): m for mid, m in allm.items()}
     # model level: soundness jobs
-    presc, r1 = prescribe(ctx, [job(pid, annotate_types(json.loads(json.dumps(p))), what="sound") for pid, p in progs.items()], fuel=200000)
+    presc, r1 = prescribe(ctx, [job(pid, annotate_types(json.loads(json.dumps(p))), what="sound") for pid, p in progs.items()], fuel=200000, timeout=3000)
     unsound = [pid for pid, x in presc.items() if x["wt"] and x["status"].startswith("stuck")]
     if unsound:
         raise InfraError("NanoType/NanoSem: a well-typed program gets stuck in the specification itself: %s %s" % (unsound[0], presc[unsound[0]]["status"]))
